@@ -2,14 +2,18 @@
 
 use crate::engine::Property;
 
+pub mod c08;
+pub mod c09;
 pub mod c13;
 
 pub fn ids() -> Vec<&'static str> {
-    vec!["C13"]
+    vec!["C08", "C09", "C13"]
 }
 
 pub fn property(id: &str) -> Option<Property> {
     Some(match id {
+        "C08" => c08::property(),
+        "C09" => c09::property(),
         "C13" => c13::property(),
         _ => return None,
     })
